@@ -252,6 +252,11 @@ func history(seed int64, length int, profile string, rec *recorder, ttl bool) {
 			}
 		}
 		post := e.project()
+		if expire != "" && len(pre["sess"].([]M))-len(post["sess"].([]M)) != 1 {
+			// another session's TTL fired during the wait: two invalidations cannot be told apart in one event
+			skipped++
+			continue
+		}
 		if i1 := vs.LastIndex(); i1 > i0+1 && expire == "" {
 			// some leader-loop entry was committed around the command: its raft index is ambiguous
 			skipped++
